@@ -14,17 +14,26 @@ def natives (j : Json) : Bool × Bool × Bool × Bool :=
   let s := J.strD j "native" "i"
   (s.contains 'i', s.contains 's', s.contains 'c', s.contains 't')
 
-/-- the packed forms of a node body -/
+/-- the packed forms of a node body. `WithOutputKey k` makes the component's (string) output
+    appear as {k: output}: in the model the output key replaces the node key in the result map. -/
 partial def packedOf (key : Key) (n : Json) : JE (Packed FlatMap) := do
   let b ← J.field n "body"
   let (hi, hs, hc, ht) := natives n
   let pat := (J.arrD n "chunks").filterMap (fun x => x.getNat?.toOption)
+  let okey := J.strD n "outKey" key
   match (← J.str b "op") with
-  | "tag" => pure (pack co pref (nativeOf co (fun v => .ok (GraphCase.tagBody key v)) (flatChunk pat) hi hs hc ht))
+  | "tag" => pure (pack co pref (nativeOf co (fun v => .ok [(okey, (GraphCase.tagBody key v).headD ("", "") |>.2)]) (flatChunk pat) hi hs hc ht))
   | "fail" => do
       let id ← J.nat b "id"
       pure (pack co pref (nativeOf co (fun _ => .error { cls := .user id }) (flatChunk pat) hi hs hc ht))
   | op => throw s!"packedOf: bad op {op}"
+
+/-- `WithInputKey k`: value mode takes input[k] (error when missing); stream mode keeps, of
+    every chunk, only key k and drops the chunks that lack it (`inputStreamFilter`) -/
+def restrictKey (k : Key) (v : FlatMap) : Option FlatMap :=
+  match v.find? (·.1 == k) with
+  | some kv => some [kv]
+  | none => none
 
 mutual
 /-- value-mode (`i`) and stream-mode (`t`) function of a node -/
@@ -39,7 +48,13 @@ partial def nodeActs (key : Key) (n : Json) : JE ((FlatMap → Except Err FlatMa
       pure (fun v => (run GraphCase.flatOps rv v).result, fun s => (run streamOps rs s).result)
   | _ => do
       let p ← packedOf key n
-      pure (p.i, p.t)
+      match (n.getObjVal? "inKey").toOption.bind (fun x => x.getStr?.toOption) with
+      | none => pure (p.i, p.t)
+      | some ik =>
+        pure (fun v => match restrictKey ik v with
+                | some v' => p.i v'
+                | none => .error { cls := .user 9997 },
+              fun s => p.t (s.filterMap (restrictKey ik)))
 
 partial def parseBoth (j : Json) : JE (GraphDef FlatMap × GraphDef SV) := do
   let mode := J.strD j "mode" "pregel"
